@@ -459,13 +459,13 @@ def check(spec):
         for tr, ex in trackers:
             compare(tr, ex, what, feats)
 
-    for si, s in enumerate(spec["steps"]):
+    def run_step(s, at):
+        nonlocal cur, recorded_grad
         op = s["op"]
-        what = f"step {si} {op}"
-        at = attached()
+        what = f"{op}"
         if op == "enter":
             if at is not None and at[0].active:
-                continue
+                return True
             if s["how"] == "new" or at is None:
                 tr = qp.Tracker(dev, persistent=s["persistent"])
                 trackers.append((tr, Expected()))
@@ -481,19 +481,19 @@ def check(spec):
             labels.append("enter:persistent" if tr.persistent else "enter")
         elif op == "exit":
             if at is None or not at[0].active:
-                continue
+                return True
             at[0].__exit__(None, None, None)
             if at[0].active:
                 raise Viol("exit", f"{what}: still active after __exit__", sig="exit", features=feats)
         elif op == "reset":
             if at is None:
-                continue
+                return True
             at[0].reset()
             trackers[cur] = (at[0], Expected())
             labels.append("reset")
         elif op == "manual":
             if at is None:
-                continue
+                return True
             at[0].active = s["active"]
             labels.append("manual-toggle")
         elif op in ("qnode", "grad"):
@@ -503,11 +503,11 @@ def check(spec):
             if diff == "adjoint-vjp":
                 diff, kw = "adjoint", {"device_vjp": True}
             if diff == "adjoint" and (name != "default.qubit" or c["shots"] is not None):
-                continue
+                return True
             if diff == "backprop" and (c["shots"] is not None or name in ("reference.qubit",)):
-                continue
+                return True
             if op == "grad" and diff in (None, "best"):
-                continue
+                return True
 
             def qfunc(x, c=c):
                 apply_ops(qp, c, x)
@@ -542,9 +542,9 @@ def check(spec):
         elif op == "dev":
             entry = s["entry"]
             if not has_deriv.get(entry, False) and entry != "execute":
-                continue
+                return True
             if entry != "execute" and name != "default.qubit":
-                continue
+                return True
             tapes = [make_tape(qp, c) for c in s["circs"]]
             single = s["single"] and len(tapes) == 1
             arg = tapes[0] if single else tuple(tapes)
@@ -567,13 +567,33 @@ def check(spec):
                 else:
                     getattr(dev, entry)(arg, cfg)
             labels.append("dev:" + entry + (":single" if single else ""))
+        return False
+
+    for si, s in enumerate(spec["steps"]):
+        op = s["op"]
+        what = f"step {si} {op}"
+        at = attached()
+        try:
+            skip = run_step(s, at)
+        except (Viol, Reject):
+            raise
+        except Exception as e:  # noqa: BLE001  the workflow / device crashed on a valid circuit
+            import traceback
+
+            where = [f for f in traceback.extract_tb(e.__traceback__) if "/pennylane/" in f.filename]
+            if not where:
+                raise
+            kind = s.get("entry") or s.get("diff") or ""
+            raise Viol("device-crash", f"{what} {kind} on {name}: {type(e).__name__}: {e} (at {where[-1].filename.split('/pennylane/')[-1]}:"
+                       f"{where[-1].lineno}) circuit={s.get('c') or s.get('circs')}", sig=f"crash/{op}:{kind}/{type(e).__name__}",
+                       features={**feats, "op": op, "kind": kind, "exc": type(e).__name__}) from None
+        if skip:
+            continue
         consume(what + f" {({k: v for k, v in s.items() if k not in ('c', 'circs', 'op')})}")
     nontrivial = recorded_grad and recorded_batch
     if n_active_events == 0:
         labels.append("nothing-recorded")
     return Result(nontrivial, sorted(set(labels)))
-
-
 def selftest():
     class W(list):
         pass
